@@ -51,6 +51,8 @@ Checks(e) ==
         HasSpec(e) => \A i \in Idx(e) : GotBytes(e, i) => Len(r[i].bytes) = Len(Enc(TreeOf(e, i)))),
      Ck("C06", "children's standalone encodings appear inside the container whole, unmodified, disjoint and in order",
         InOrder(LastBytes(e, e.top), [k \in DOMAIN e.kids |-> LastBytes(e, e.kids[k])], 1)),
+     Ck("C13", "sizing and encoding the value while it was being built did not change what it encodes to",
+        (HasSpec(e) /\ \E k \in DOMAIN e.ops : e.ops[k].op = "obs") => \A i \in Idx(e) : GotBytes(e, i) => r[i].bytes = Enc(TreeOf(e, i))),
      Ck("C13", "repeated size queries and encodings give the same answer",
         \A i \in Idx(e), j \in Idx(e) : (ObjOf(e, i) = ObjOf(e, j) /\ KindOf(e, i) = KindOf(e, j)) => r[i] = r[j]) >>
 Mismatch(e) == IF ~(Enabled("C03") /\ HasSpec(e)) THEN {} ELSE {i \in Idx(e) : GotBytes(e, i) /\ Res(e)[i].bytes # Enc(TreeOf(e, i))}
